@@ -191,8 +191,10 @@ func c12Build(s GSpec) gBuilt {
 		return gBuilt{reflect.ValueOf(v), m, true, false}
 	}
 	if s.K == "casemap" {
-		v := map[string]any{"name": "lower", "Name": "upper", "id": 1, "ID": 2, "Url": "U"}
-		return gBuilt{reflect.ValueOf(v), vObj("name", vStr("lower"), "Name", vStr("upper"), "id", vInt(1), "ID", vInt(2), "Url", vStr("U")), true, false}
+		// keys that differ in case only, and keys spelled like keywords of the language
+		v := map[string]any{"name": "lower", "Name": "upper", "id": 1, "ID": 2, "Url": "U", "in": "kw-in", "true": "kw-true", "false": "kw-false", "nil": "kw-nil", "loop": "kw-loop", "len": "fn-len"}
+		return gBuilt{reflect.ValueOf(v), vObj("name", vStr("lower"), "Name", vStr("upper"), "id", vInt(1), "ID", vInt(2), "Url", vStr("U"),
+			"in", vStr("kw-in"), "true", vStr("kw-true"), "false", vStr("kw-false"), "nil", vStr("kw-nil"), "loop", vStr("kw-loop"), "len", vStr("fn-len")), true, false}
 	}
 	if s.K == "static" {
 		v := C12Static{Name: "top", hidden: 7, Inner: &C12Static{Name: "in", Any: int8(3)}, Any: []int{4}, List: []C12Static{{Name: "l0"}}}
